@@ -127,6 +127,13 @@ def targeted_calls(ctx):
     add('crop_center', lambda: LT.crop_center(torch.rand(10, 10), size=[5, 5]))
     add('np.zero_pad', lambda: NT.zero_pad(np.random.rand(5, 5), size=[8, 9]))
     add('np.crop_center', lambda: NT.crop_center(np.random.rand(10, 10), size=[4, 5]))
+    zp_in = torch.rand(6, 6)
+    add('zero_pad/center', lambda: LT.zero_pad(zp_in, size=[9, 9]))
+    add('zero_pad/left', lambda: LT.zero_pad(zp_in, size=[9, 9], method='left'))
+    add('zero_pad/default_doubling', lambda: LT.zero_pad(zp_in))
+    add('crop_center/after_left', lambda: LT.crop_center(LT.zero_pad(zp_in), size=[6, 6]))
+    ml_obj = LW.multiplane_loss(torch.rand(3, 12, 12), torch.rand(12, 12), number_of_planes=3, target_blur_size=5)
+    add('multiplane_loss.get_targets', lambda: ml_obj.get_targets())
     add('quantize', lambda: LT.quantize(torch.rand(4, 4), bits=4, limits=[0., 1.]))
     tri = np.array([[0., 0, 1], [1, 0, 1], [0, 1, 1]])
     ray = np.array([[0.1, 0.1, 0.], [0, 0, 1.]])
@@ -292,6 +299,14 @@ def run(ctx):
                       {'callable': q, 'how': 'run ./check C20; the probe calls the function, multiplies every float argument in place by 1 + 2^-10 (tensors through '
                                              '.data), calls it again with the same objects and once with fresh copies'},
                       {'fn': q, 'what': 'identity_dependent'})
+    for q, what in sorted(probe.layout_dependent.items()):
+        ctx.violation('%s: %s' % (q, what), {'callable': q, 'how': 'run ./check C20; the probe repeats the call with copies of the arguments whose last two axes are exchanged in memory'},
+                      {'fn': q, 'what': 'layout_dependent'})
+    for q, what in sorted(probe.result_owned_by_library.items()):
+        if q in ALLOWED:
+            continue
+        ctx.violation('%s: %s' % (q, what), {'callable': q, 'how': 'run ./check C20; the probe scales the returned object in place and repeats the call'},
+                      {'fn': q, 'what': 'result_owned_by_library'})
     for q, what in sorted(probe.result_changed_later.items()):
         if q in ALLOWED:
             continue
